@@ -578,7 +578,7 @@ class Model:
 
         # Get mapped values; checks are carried out on conductivities.
         if 'property_' in name:
-            mapped = self.map.backward(np.asarray(values))
+            mapped = self.map.backward(np.asarray(values, dtype=float))
         else:
             mapped = values
 
